@@ -186,7 +186,9 @@ Proof.
       intros _. repeat split.
       * apply takeN_nonnil; [exact Hcap | discriminate].
       * rewrite lenN_takeN. lia.
-      * rewrite app_assoc, take_drop. reflexivity.
+      * change (src_data (Buffered (dropN cap (x :: buf)) false sc))
+          with (dropN cap (x :: buf) ++ script_data sc).
+        rewrite app_assoc, take_drop. reflexivity.
 Qed.
 
 (* ------------------------------------------------------------------ *)
@@ -357,18 +359,18 @@ Section Sims.
   Proof. unfold rd1x. sim_go. Qed.
   Hint Resolve sim_fill_mark sim_rd1x : simdb.
 
-  Lemma sim_uleb_loop fuel : forall acc shift k, sim (uleb_loop fuel acc shift k).
+  Lemma sim_uleb_loop fuel : forall acc shift k, sim (uleb_loop maxdoc fuel acc shift k).
   Proof.
     induction fuel as [|f IH]; intros acc shift k; simpl; [apply sim_stuck|].
-    sim_go. apply IH.
+    sim_go; try apply IH.
   Qed.
 
-  Lemma sim_uleb : sim uleb.
-  Proof. unfold uleb. sim_go. apply sim_uleb_loop. Qed.
+  Lemma sim_uleb : sim (uleb maxdoc).
+  Proof. unfold uleb. sim_go; try apply sim_uleb_loop. Qed.
 
   Hint Resolve sim_read_u8 sim_read_type_or_eof sim_read_bytes sim_uleb : simdb.
 
-  Lemma sim_small_uleb maxv : sim (small_uleb maxv).
+  Lemma sim_small_uleb maxv : sim (small_uleb maxdoc maxv).
   Proof. unfold small_uleb. sim_go. Qed.
   Hint Resolve sim_small_uleb : simdb.
 
@@ -378,27 +380,27 @@ Section Sims.
   Lemma sim_read_uint : sim (read_uint maxdoc).
   Proof. unfold read_uint. sim_go. Qed.
 
-  Lemma sim_read_decimal : sim read_decimal.
+  Lemma sim_read_decimal : sim (read_decimal maxdoc).
   Proof. unfold read_decimal. sim_go. Qed.
 
-  Lemma sim_read_timezone : sim read_timezone.
+  Lemma sim_read_timezone : sim (read_timezone maxdoc).
   Proof. unfold read_timezone. sim_go. Qed.
   Hint Resolve sim_read_identifier sim_read_uint sim_read_decimal sim_read_timezone : simdb.
 
-  Lemma sim_read_date : sim read_date.
+  Lemma sim_read_date : sim (read_date maxdoc).
   Proof. unfold read_date. sim_go. Qed.
 
-  Lemma sim_read_time : sim read_time.
+  Lemma sim_read_time : sim (read_time maxdoc).
   Proof. unfold read_time. sim_go. Qed.
 
-  Lemma sim_read_timestamp : sim read_timestamp.
+  Lemma sim_read_timestamp : sim (read_timestamp maxdoc).
   Proof. unfold read_timestamp. sim_go. Qed.
   Hint Resolve sim_read_date sim_read_time sim_read_timestamp : simdb.
 
   Lemma sim_chunks fuel : forall width, sim (chunks maxdoc fuel width).
   Proof.
     induction fuel as [|f IH]; intro width; simpl; [apply sim_stuck|].
-    sim_go. apply IH.
+    sim_go; try apply IH.
   Qed.
   Hint Resolve sim_chunks : simdb.
 
@@ -429,7 +431,7 @@ Section Sims.
   Lemma sim_main_loop fuel : sim (main_loop maxdoc fuel).
   Proof.
     induction fuel as [|f IH]; simpl; [apply sim_stuck|].
-    sim_go. exact IH.
+    sim_go; try exact IH.
   Qed.
   Hint Resolve sim_main_loop : simdb.
 
@@ -469,3 +471,632 @@ Proof.
   - apply mem_script_good.
   - now rewrite mem_script_data.
 Qed.
+
+(* ------------------------------------------------------------------ *)
+(* facts about one Read that hold for every source                      *)
+(* ------------------------------------------------------------------ *)
+
+Definition mu (s : src) : nat := (length (src_data s) + src_zeros s)%nat.
+
+Lemma script_zeros_cons r rest :
+  script_zeros (r :: rest) = ((if is_zero_resp r then 1 else 0) + script_zeros rest)%nat.
+Proof. unfold script_zeros; simpl. destruct (is_zero_resp r); reflexivity. Qed.
+
+Lemma script_data_cons bs e rest : script_data ((bs, e) :: rest) = bs ++ script_data rest.
+Proof. reflexivity. Qed.
+
+Lemma is_zero_nonnil bs e : bs <> [] -> is_zero_resp (bs, e) = false.
+Proof. destruct bs; [congruence | reflexivity]. Qed.
+
+(* data is handed out in order; (0, nil) responses are used up; without an
+   error something is always used up *)
+Lemma rd_script_gen cap sc :
+  1 <= cap ->
+  let '(bs, e, sc') := rd_script cap sc in
+  script_data sc = bs ++ script_data sc' /\
+  (script_zeros sc' <= script_zeros sc)%nat /\
+  lenN bs <= cap /\
+  (e = false -> bs = [] -> (script_zeros sc' < script_zeros sc)%nat).
+Proof.
+  intro Hcap. destruct sc as [|[bs e] rest]; cbn [rd_script].
+  - simpl. repeat split; auto; try lia; try discriminate.
+  - destruct (N.leb_spec (lenN bs) cap) as [Hle|Hgt].
+    + rewrite script_data_cons, script_zeros_cons. repeat split; auto; try lia.
+      intros -> ->. simpl. lia.
+    + rewrite !script_data_cons, !script_zeros_cons.
+      assert (Hb : bs <> []) by (intro E; subst bs; simpl in Hgt; lia).
+      assert (Z1 : is_zero_resp (bs, e) = false) by (destruct bs; [congruence | reflexivity]).
+      assert (Z2 : is_zero_resp (dropN cap bs, e) = false).
+      { pose proof (dropN_nonnil cap bs Hgt) as Hd. destruct (dropN cap bs); [congruence | reflexivity]. }
+      rewrite Z1, Z2.
+      repeat split; try lia.
+      * rewrite app_assoc, take_drop. reflexivity.
+      * rewrite lenN_takeN. lia.
+      * intros _ E. exfalso. revert E. apply takeN_nonnil; assumption.
+Qed.
+
+Lemma rd_gen cap s :
+  1 <= cap ->
+  let '(bs, e, s') := rd cap s in
+  src_data s = bs ++ src_data s' /\
+  (src_zeros s' <= src_zeros s)%nat /\
+  lenN bs <= cap /\
+  (e = false -> bs = [] -> (src_zeros s' < src_zeros s)%nat).
+Proof.
+  intro Hcap. destruct s as [sc | buf pend sc]; simpl.
+  - pose proof (rd_script_gen cap sc Hcap) as H.
+    destruct (rd_script cap sc) as [[bs e] sc']. exact H.
+  - destruct buf as [|x buf].
+    + destruct pend.
+      * simpl. repeat split; auto; try lia; try discriminate.
+      * destruct (N.leb_spec bufio_size cap) as [Hbig|Hsmall].
+        -- pose proof (rd_script_gen cap sc Hcap) as H.
+           destruct (rd_script cap sc) as [[bs e] sc']. exact H.
+        -- assert (H1 : 1 <= bufio_size) by (unfold bufio_size; lia).
+           pose proof (rd_script_gen bufio_size sc H1) as H.
+           destruct (rd_script bufio_size sc) as [[bs e] sc'].
+           destruct H as (Hd & Hz & Hl & Hp). destruct bs as [|y bs].
+           ++ simpl. repeat split; auto. lia.
+           ++ cbn [src_data src_zeros]. repeat split; auto.
+              ** rewrite Hd. change ([] ++ ?x) with x.
+                 rewrite (app_assoc (takeN cap (y :: bs))), take_drop. reflexivity.
+              ** rewrite lenN_takeN. lia.
+              ** intros _ E. exfalso. revert E. apply takeN_nonnil; [assumption | discriminate].
+    + cbn [src_data src_zeros]. repeat split; auto.
+      * rewrite (app_assoc (takeN cap (x :: buf))), take_drop. reflexivity.
+      * rewrite lenN_takeN. lia.
+      * intros _ E. exfalso. revert E. apply takeN_nonnil; [assumption | discriminate].
+Qed.
+
+(* every Read that returns no error makes the measure smaller *)
+Lemma rd_mu cap s :
+  1 <= cap ->
+  let '(bs, e, s') := rd cap s in
+  (mu s' <= mu s)%nat /\ (e = false -> (mu s' < mu s)%nat).
+Proof.
+  intro Hcap. pose proof (rd_gen cap s Hcap) as H.
+  destruct (rd cap s) as [[bs e] s']. destruct H as (Hd & Hz & _ & Hp).
+  unfold mu. rewrite Hd, app_length. split; [lia|].
+  intro He. destruct bs as [|x bs]; [specialize (Hp He eq_refl); simpl; lia | simpl; lia].
+Qed.
+
+(* ------------------------------------------------------------------ *)
+(* io.Copy: every reader gives the whole data                           *)
+(* ------------------------------------------------------------------ *)
+
+(* io.EOF at the very end only: with the error the data is finished *)
+Definition wf_src (s : src) : Prop :=
+  match s with
+  | Direct sc => eof_last sc = true
+  | Buffered _ pend sc => eof_last sc = true /\ (pend = true -> script_data sc = [])
+  end.
+
+Lemma eof_last_cons bs e r rest :
+  eof_last ((bs, e) :: r :: rest) = true -> e = false /\ eof_last (r :: rest) = true.
+Proof.
+  simpl. destruct r as [bs' e']. intro H. apply andb_true_iff in H as [H1 H2].
+  split; [now destruct e | exact H2].
+Qed.
+
+Lemma eof_last_tail r rest : eof_last (r :: rest) = true -> eof_last rest = true.
+Proof.
+  destruct rest as [|r' rest]; [reflexivity|]. destruct r as [bs e].
+  intro H. now apply eof_last_cons in H.
+Qed.
+
+Lemma rd_script_wf cap sc :
+  eof_last sc = true ->
+  let '(bs, e, sc') := rd_script cap sc in
+  eof_last sc' = true /\ (e = true -> script_data sc' = []).
+Proof.
+  intro H. destruct sc as [|[bs e] rest]; simpl; [auto|].
+  destruct (lenN bs <=? cap).
+  - split; [now apply eof_last_tail in H|].
+    intros ->. destruct rest as [|r rest]; [reflexivity|].
+    apply eof_last_cons in H as [H _]. discriminate.
+  - split; [|discriminate]. destruct rest as [|r rest]; [reflexivity|].
+    apply eof_last_cons in H as [-> H]. simpl. destruct r. exact H.
+Qed.
+
+Lemma rd_wf cap s :
+  wf_src s ->
+  let '(bs, e, s') := rd cap s in wf_src s' /\ (e = true -> src_data s' = []).
+Proof.
+  intro H. destruct s as [sc | buf pend sc]; simpl in *.
+  - pose proof (rd_script_wf cap sc H) as W.
+    destruct (rd_script cap sc) as [[bs e] sc']. exact W.
+  - destruct H as [H Hp]. destruct buf as [|x buf].
+    + destruct pend.
+      * simpl. split; [split; [exact H | discriminate]|]. intros _. now apply Hp.
+      * destruct (bufio_size <=? cap).
+        -- pose proof (rd_script_wf cap sc H) as W.
+           destruct (rd_script cap sc) as [[bs e] sc']. destruct W as [W1 W2].
+           simpl. split; [split; [exact W1 | discriminate]|]. exact W2.
+        -- pose proof (rd_script_wf bufio_size sc H) as W.
+           destruct (rd_script bufio_size sc) as [[bs e] sc']. destruct W as [W1 W2].
+           destruct bs as [|y bs]; simpl.
+           ++ split; [split; [exact W1 | discriminate]|]. exact W2.
+           ++ split; [split; [exact W1 | exact W2]|]. discriminate.
+    + simpl. split; [split; assumption | discriminate].
+Qed.
+
+Lemma copy_loop_all fuel : forall s,
+  wf_src s -> (mu s < fuel)%nat -> copy_loop fuel s = Some (src_data s).
+Proof.
+  induction fuel as [|f IH]; intros s Hw Hf; [lia|]. simpl.
+  assert (Hc : 1 <= copy_cap) by (unfold copy_cap; lia).
+  pose proof (rd_gen copy_cap s Hc) as G. pose proof (rd_mu copy_cap s Hc) as U.
+  pose proof (rd_wf copy_cap s Hw) as W.
+  destruct (rd copy_cap s) as [[bs e] s']. destruct G as (Hd & _), U as (U1 & U2), W as (W1 & W2).
+  destruct e.
+  - rewrite Hd, (W2 eq_refl), app_nil_r. reflexivity.
+  - rewrite (IH s' W1 ltac:(specialize (U2 eq_refl); lia)), Hd. reflexivity.
+Qed.
+
+Lemma copy_all_wf s : wf_src s -> copy_all s = Some (src_data s).
+Proof. intro H. apply copy_loop_all; [exact H | unfold mu, src_fuel; lia]. Qed.
+
+Section EntryProofs.
+  Context {R : Type}.
+  Variable maxdoc : N.
+  Variable cte_parse : bytes -> outcome R.
+  Variable cbe_build : result -> outcome R.
+
+  (* The CTE entry points do not depend on the script at all. *)
+  Theorem cte_stream_all sc d :
+    eof_last sc = true -> script_data sc = d ->
+    cte_stream cte_parse sc = cte_mem cte_parse d.
+  Proof.
+    intros Hw Hd. unfold cte_stream, cte_src, cte_mem.
+    rewrite (copy_all_wf (Direct sc) Hw). simpl. now rewrite Hd.
+  Qed.
+
+  Theorem cbe_stream_good sc d :
+    good_script sc = true -> script_data sc = d ->
+    cbe_stream maxdoc cbe_build sc = cbe_mem maxdoc cbe_build d.
+  Proof.
+    intros Hg Hd. unfold cbe_stream, cbe_mem. now rewrite (decode_stream_good maxdoc sc d Hg Hd).
+  Qed.
+End EntryProofs.
+
+(* ------------------------------------------------------------------ *)
+(* universal entry points on good scripts                               *)
+(* ------------------------------------------------------------------ *)
+
+Lemma good_eof_last sc : good_script sc = true -> eof_last sc = true.
+Proof.
+  induction sc as [|[bs e] rest IH]; [reflexivity|]. intro H.
+  apply good_script_cases in H as [(-> & -> & ->) | (-> & _ & Hr)]; [reflexivity|].
+  destruct rest as [|r rest]; [reflexivity|]. simpl. destruct r. apply IH, Hr.
+Qed.
+
+Lemma peek_init_good sc :
+  good_script sc = true ->
+  match peek_init sc with
+  | None => script_data sc = []
+  | Some s => good_src s = true /\ wf_src s /\ src_data s = script_data sc /\ script_data sc <> []
+  end.
+Proof.
+  intro Hg. unfold peek_init. change (peek_fill 100 sc) with
+    (let '(bs, e, sc') := rd_script bufio_size sc in
+     if e then Some (bs, true, sc')
+     else match bs with [] => peek_fill 99 sc' | _ => Some (bs, false, sc') end).
+  assert (H1 : 1 <= bufio_size) by (unfold bufio_size; lia).
+  pose proof (rd_script_good bufio_size sc Hg H1) as H.
+  destruct (rd_script bufio_size sc) as [[bs e] sc']. destruct H as [Hg' [Hnil Hdat]].
+  destruct (script_data sc) as [|x d] eqn:E.
+  - destruct (Hnil eq_refl) as (-> & -> & _). reflexivity.
+  - destruct (Hdat ltac:(discriminate)) as (-> & Hb & _ & Hd).
+    destruct bs as [|y bs]; [congruence|].
+    simpl. rewrite Hg'. repeat split; auto.
+    + now apply good_eof_last.
+    + discriminate.
+    + discriminate.
+Qed.
+
+Section EntryProofs2.
+  Context {R : Type}.
+  Variable maxdoc : N.
+  Variable cte_parse : bytes -> outcome R.
+  Variable cbe_build : result -> outcome R.
+
+  Theorem ce_stream_good sc d :
+    good_script sc = true -> script_data sc = d ->
+    ce_stream maxdoc cte_parse cbe_build sc = ce_mem maxdoc cte_parse cbe_build d.
+  Proof.
+    intros Hg Hd. unfold ce_stream, ce_mem. pose proof (peek_init_good sc Hg) as P.
+    destruct (peek_init sc) as [s|].
+    - destruct P as (G & W & D & Hne). rewrite D, Hd. destruct d as [|b d]; [congruence|].
+      destruct ((b =? 99) || (b =? 67)).
+      + unfold cte_src, cte_mem. rewrite (copy_all_wf s W), D, Hd. reflexivity.
+      + destruct (b =? 129); [|reflexivity].
+        unfold cbe_mem, decode_mem, decode_stream. f_equal.
+        apply cbe_decode_src_good.
+        * exact G.
+        * apply mem_script_good.
+        * cbn [src_data]. rewrite mem_script_data, D, Hd. reflexivity.
+    - rewrite <- Hd, P. reflexivity.
+  Qed.
+End EntryProofs2.
+
+(* ------------------------------------------------------------------ *)
+(* the two response kinds that break the CBE decoder                    *)
+(* ------------------------------------------------------------------ *)
+
+Definition default_maxdoc : N := 5368709120.
+
+(* the whole document [81 00 01] in one response together with io.EOF:
+   the last byte is taken for the end of the document *)
+Definition witness_data_eof : script := [([129; 0; 1], true)].
+(* a (0, nil) read where a type byte is expected: the previous byte is decoded again *)
+Definition witness_zero_read : script := [([129; 0], false); ([], false); ([1], false)].
+(* a (0, nil) read inside a multi-byte ULEB128 (version 80 80 00): value 0, and the
+   rest of the field is decoded as objects *)
+Definition witness_zero_read_uleb : script := [([129; 128], false); ([], false); ([128; 0; 154; 155], false)].
+(* one byte per call, the last one with io.EOF, inside a 2-byte field: an error *)
+Definition witness_data_eof_field : script := [([129], false); ([0], false); ([106], false); ([1], false); ([2], true)].
+
+Lemma refute_data_eof :
+  delivers witness_data_eof [129; 0; 1] /\
+  decode_stream default_maxdoc witness_data_eof <> decode_mem default_maxdoc [129; 0; 1].
+Proof. split; [split; reflexivity|]. vm_compute. discriminate. Qed.
+
+Lemma refute_zero_read :
+  delivers witness_zero_read [129; 0; 1] /\
+  decode_stream default_maxdoc witness_zero_read <> decode_mem default_maxdoc [129; 0; 1].
+Proof. split; [split; reflexivity|]. vm_compute. discriminate. Qed.
+
+Lemma refute_zero_read_uleb :
+  delivers witness_zero_read_uleb [129; 128; 128; 0; 154; 155] /\
+  decode_stream default_maxdoc witness_zero_read_uleb <> decode_mem default_maxdoc [129; 128; 128; 0; 154; 155].
+Proof. split; [split; reflexivity|]. vm_compute. discriminate. Qed.
+
+Lemma refute_data_eof_field :
+  delivers witness_data_eof_field [129; 0; 106; 1; 2] /\
+  decode_stream default_maxdoc witness_data_eof_field <> decode_mem default_maxdoc [129; 0; 106; 1; 2].
+Proof. split; [split; reflexivity|]. vm_compute. discriminate. Qed.
+
+(* the same through the universal entry point: bufio hides data+EOF for small
+   reads but passes (0, nil) on *)
+Lemma refute_zero_read_universal :
+  match peek_init witness_zero_read with
+  | Some s => cbe_decode_src default_maxdoc s <> decode_mem default_maxdoc [129; 0; 1]
+  | None => False
+  end.
+Proof. vm_compute. discriminate. Qed.
+
+Lemma good_excludes sc :
+  good_script sc = true -> has_zero_read sc = false /\ has_data_eof sc = false.
+Proof.
+  induction sc as [|[bs e] rest IH]; [auto|]. intro H.
+  apply good_script_cases in H as [(-> & -> & ->) | (-> & Hb & Hr)]; [auto|].
+  destruct (IH Hr) as [Z D]. unfold has_zero_read, has_data_eof in *. simpl.
+  destruct bs; [congruence|]. simpl. auto.
+Qed.
+
+(* ------------------------------------------------------------------ *)
+(* statements as used by Props/C28.v                                    *)
+(* ------------------------------------------------------------------ *)
+
+Lemma delivers_eof_last sc d : delivers sc d -> eof_last sc = true.
+Proof. intros [H _]. unfold script_wf in H. now apply andb_true_iff in H as [H _]. Qed.
+
+Lemma stream_eq_memory_partial :
+  forall maxdoc sc d, delivers sc d -> good_script sc = true ->
+    decode_stream maxdoc sc = decode_mem maxdoc d.
+Proof. intros maxdoc sc d [_ Hd] Hg. now apply decode_stream_good. Qed.
+
+Lemma stream_eq_memory_refuted :
+  ~ (forall maxdoc sc d, delivers sc d -> decode_stream maxdoc sc = decode_mem maxdoc d).
+Proof. intro H. destruct refute_data_eof as [Hd Hn]. apply Hn, H, Hd. Qed.
+
+Lemma stream_eq_memory_refuted_data_eof :
+  exists maxdoc sc d, delivers sc d /\ has_zero_read sc = false /\
+    decode_stream maxdoc sc <> decode_mem maxdoc d.
+Proof.
+  exists default_maxdoc, witness_data_eof, [129; 0; 1].
+  destruct refute_data_eof as [Hd Hn]. repeat split; try apply Hd. exact Hn.
+Qed.
+
+Lemma stream_eq_memory_refuted_zero_read :
+  exists maxdoc sc d, delivers sc d /\ has_data_eof sc = false /\
+    decode_stream maxdoc sc <> decode_mem maxdoc d.
+Proof.
+  exists default_maxdoc, witness_zero_read, [129; 0; 1].
+  destruct refute_zero_read as [Hd Hn]. repeat split; try apply Hd. exact Hn.
+Qed.
+
+Lemma cte_stream_eq_memory :
+  forall (R : Type) (cte_parse : bytes -> outcome R) sc d,
+    delivers sc d -> cte_stream cte_parse sc = cte_mem cte_parse d.
+Proof.
+  intros R cte_parse sc d H. apply cte_stream_all; [now apply (delivers_eof_last sc d) | apply H].
+Qed.
+
+Lemma ce_stream_eq_memory_partial :
+  forall (R : Type) maxdoc (cte_parse : bytes -> outcome R) (cbe_build : result -> outcome R) sc d,
+    delivers sc d -> good_script sc = true ->
+    ce_stream maxdoc cte_parse cbe_build sc = ce_mem maxdoc cte_parse cbe_build d.
+Proof. intros R maxdoc cte_parse cbe_build sc d [_ Hd] Hg. now apply ce_stream_good. Qed.
+
+(* ------------------------------------------------------------------ *)
+(* the fuel is never exhausted                                          *)
+(* ------------------------------------------------------------------ *)
+
+Definition smu (s : rstate) : nat := mu (s_src s).
+
+(* below the bound n: no Stuck, and the measure does not grow (P) / shrinks (Q) *)
+Definition P (n : nat) {A} (m : M A) : Prop :=
+  forall s, (smu s < n)%nat ->
+    match m s with Ret _ s' => (smu s' <= smu s)%nat | Fail _ => True | Stuck => False end.
+Definition Q (n : nat) {A} (m : M A) : Prop :=
+  forall s, (smu s < n)%nat ->
+    match m s with Ret _ s' => (smu s' < smu s)%nat | Fail _ => True | Stuck => False end.
+
+Lemma Q_P n {A} (m : M A) : Q n m -> P n m.
+Proof. intros H s Hs. specialize (H s Hs). destruct (m s); auto. lia. Qed.
+
+Lemma P_ret n {A} (a : A) : P n (ret a).
+Proof. intros s _. simpl. lia. Qed.
+Lemma P_fail n {A} : P n (@fail A).
+Proof. intros s _. exact I. Qed.
+Lemma P_emit n t : P n (emit t).
+Proof. intros s _. unfold emit, smu. simpl. lia. Qed.
+Lemma P_ev n e : P n (ev e).
+Proof. apply P_emit. Qed.
+Lemma P_get_b0 n : P n get_b0.
+Proof. intros s _. simpl. lia. Qed.
+Lemma P_get_fuel n : P n get_fuel.
+Proof. intros s _. simpl. lia. Qed.
+Lemma P_mark n maxdoc k : P n (mark maxdoc k).
+Proof. intros s _. unfold mark. destruct (_ <? _); [exact I|]. unfold smu; simpl. lia. Qed.
+
+Lemma P_bind n {A B} (m : M A) (f : A -> M B) :
+  P n m -> (forall a, P n (f a)) -> P n (bind m f).
+Proof.
+  intros Hm Hf s Hs. unfold bind. specialize (Hm s Hs).
+  destruct (m s) as [a s'|s'|]; auto.
+  specialize (Hf a s' ltac:(lia)). destruct (f a s'); auto. lia.
+Qed.
+
+Lemma Q_bind_l n {A B} (m : M A) (f : A -> M B) :
+  Q n m -> (forall a, P n (f a)) -> Q n (bind m f).
+Proof.
+  intros Hm Hf s Hs. unfold bind. specialize (Hm s Hs).
+  destruct (m s) as [a s'|s'|]; auto.
+  specialize (Hf a s' ltac:(lia)). destruct (f a s'); auto. lia.
+Qed.
+
+(* a loop body: the head makes progress, the rest runs with one unit less *)
+Lemma P_step n {A B} (m : M A) (f : A -> M B) :
+  Q (S n) m -> (forall a, P n (f a)) -> P (S n) (bind m f).
+Proof.
+  intros Hm Hf s Hs. unfold bind. specialize (Hm s Hs).
+  destruct (m s) as [a s'|s'|]; auto.
+  specialize (Hf a s' ltac:(lia)). destruct (f a s'); auto. lia.
+Qed.
+
+Lemma P_weaken n n' {A} (m : M A) : (n' <= n)%nat -> P n m -> P n' m.
+Proof. intros Hle H s Hs. apply H. lia. Qed.
+
+Lemma rd1_spec s :
+  exists got e s', rd1 s = Ret (got, e) s' /\ (smu s' <= smu s)%nat /\
+    (got = true \/ e = false -> (smu s' < smu s)%nat).
+Proof.
+  unfold rd1. pose proof (rd_gen 1 (s_src s) ltac:(lia)) as G.
+  destruct (rd 1 (s_src s)) as [[bs e] s']. destruct G as (Hd & Hz & _ & Hp).
+  destruct bs as [|x bs].
+  - exists false, e, (mkst s' (s_b0 s) (s_cnt s) (s_out s)). split; [reflexivity|].
+    unfold smu, mu; simpl. rewrite Hd. simpl. split; [lia|].
+    intros [Hx|He]; [discriminate|]. specialize (Hp He eq_refl). lia.
+  - exists true, e, (mkst s' x (s_cnt s) (s_out s)). split; [reflexivity|].
+    unfold smu, mu; simpl. rewrite Hd. simpl. rewrite app_length. lia.
+Qed.
+
+Lemma P_rd1 n : P n rd1.
+Proof. intros s _. destruct (rd1_spec s) as (g & e & s' & -> & H & _). exact H. Qed.
+
+Lemma rd1x_spec maxdoc s :
+  match rd1x maxdoc s with
+  | Ret r s' => (smu s' <= smu s)%nat /\ (fst r = true \/ snd r = false -> (smu s' < smu s)%nat)
+  | Fail _ => True
+  | Stuck => False
+  end.
+Proof.
+  unfold rd1x, bind. destruct (rd1_spec s) as (g & e & s' & -> & H1 & H2).
+  unfold mark. destruct (_ <? _); [exact I|]. simpl. unfold smu in *; simpl. auto.
+Qed.
+
+Lemma P_rd1x n maxdoc : P n (rd1x maxdoc).
+Proof. intros s _. pose proof (rd1x_spec maxdoc s) as H. destruct (rd1x maxdoc s); auto. apply H. Qed.
+
+(* r <- read ;; if io.EOF then fail else ...: success means progress *)
+Lemma Q_rd1_guard n {B} (k : bool * bool -> M B) :
+  (forall r, P n (k r)) -> Q n (bind rd1 (fun r => if snd r then fail else k r)).
+Proof.
+  intros Hk s Hs. unfold bind. destruct (rd1_spec s) as (g & e & s' & -> & H1 & H2).
+  simpl. destruct e; [exact I|]. specialize (H2 (or_intror eq_refl)).
+  specialize (Hk (g, false) s' ltac:(lia)). destruct (k (g, false) s'); auto. lia.
+Qed.
+
+Lemma Q_rd1x_guard n maxdoc {B} (k : bool * bool -> M B) :
+  (forall r, P n (k r)) -> Q n (bind (rd1x maxdoc) (fun r => if snd r then fail else k r)).
+Proof.
+  intros Hk s Hs. unfold bind. pose proof (rd1x_spec maxdoc s) as H.
+  destruct (rd1x maxdoc s) as [[g e] s'|s'|]; auto. simpl in *. destruct H as [H1 H2].
+  destruct e; [exact I|]. specialize (H2 (or_intror eq_refl)).
+  specialize (Hk (g, false) s' ltac:(lia)). destruct (k (g, false) s'); auto. lia.
+Qed.
+
+Lemma fill_loop_total fuel : forall need s,
+  1 <= need -> (mu s < fuel)%nat ->
+  match fill_loop fuel need s with
+  | None => False
+  | Some None => True
+  | Some (Some (_, s')) => (mu s' <= mu s)%nat
+  end.
+Proof.
+  induction fuel as [|f IH]; intros need s Hn Hf; [lia|]. simpl.
+  pose proof (rd_mu need s Hn) as U. pose proof (rd_gen need s Hn) as G.
+  destruct (rd need s) as [[bs e] s']. destruct U as [U1 U2], G as (_ & _ & Hl & _).
+  destruct e; [exact I|]. specialize (U2 eq_refl).
+  destruct (N.leb_spec need (lenN bs)); [exact U1|].
+  specialize (IH (need - lenN bs) s' ltac:(lia) ltac:(lia)).
+  destruct (fill_loop f (need - lenN bs) s') as [[[more s'']|]|]; auto. lia.
+Qed.
+
+Lemma P_fill n at0 need : P n (fill at0 need).
+Proof.
+  intros s _. unfold fill. destruct (need =? 0) eqn:E; [simpl; lia|].
+  apply N.eqb_neq in E.
+  pose proof (fill_loop_total (src_fuel (s_src s)) need (s_src s) ltac:(lia)
+                ltac:(unfold mu, src_fuel; lia)) as H.
+  destruct (fill_loop _ need (s_src s)) as [[[bs s']|]|]; auto.
+Qed.
+
+#[export] Hint Resolve P_ret P_fail P_emit P_ev P_get_b0 P_get_fuel P_mark P_rd1 P_rd1x P_fill : pdb.
+
+Ltac p_go :=
+  repeat first
+    [ solve [auto 2 with pdb]
+    | apply P_bind; [ | intros ]
+    | match goal with |- P _ (if ?c then _ else _) => destruct c end
+    | match goal with |- P _ (match ?x with _ => _ end) => destruct x end
+    | match goal with |- P _ (let '(_, _) := ?p in _) => destruct p end ].
+
+Section NoHang.
+  Variable maxdoc : N.
+
+  Lemma P_read_u8 n : P n (read_u8 maxdoc).
+  Proof. unfold read_u8. p_go. Qed.
+  Lemma P_fill_mark n at0 k : P n (fill_mark maxdoc at0 k).
+  Proof. unfold fill_mark. p_go. Qed.
+  Lemma P_read_bytes n k : P n (read_bytes maxdoc k).
+  Proof. apply P_fill_mark. Qed.
+  Hint Resolve P_read_u8 P_fill_mark P_read_bytes : pdb.
+
+  Lemma P_uleb_loop f : forall acc shift k, P f (uleb_loop maxdoc f acc shift k).
+  Proof.
+    induction f as [|f IH]; intros acc shift k; [intros s Hs; lia|].
+    intros s Hs. cbn [uleb_loop]. unfold bind at 1.
+    pose proof (rd1x_spec maxdoc s) as H.
+    destruct (rd1x maxdoc s) as [[g e] s'|s'|]; auto. cbn [fst snd] in H.
+    destruct H as [H1 H2]. destruct g; cbn [fst snd negb].
+    - specialize (H2 (or_introl eq_refl)). unfold bind, get_b0.
+      destruct (N.testbit (s_b0 s') 7).
+      + specialize (IH (acc + N.shiftl (N.land (s_b0 s') 127) shift) (shift + 7) (k + 1) s' ltac:(lia)).
+        destruct (uleb_loop maxdoc f _ _ _ s'); auto. lia.
+      + destruct e; simpl; auto.
+    - destruct e; simpl; auto.
+  Qed.
+
+  Lemma P_uleb_tail n acc shift k :
+    P n (bind get_fuel (fun fuel => uleb_loop maxdoc fuel acc shift k)).
+  Proof.
+    intros s _. unfold bind, get_fuel.
+    apply (P_uleb_loop (src_fuel (s_src s))). unfold smu, mu, src_fuel. lia.
+  Qed.
+  Hint Resolve P_uleb_tail : pdb.
+
+  Lemma Q_uleb n : Q n (uleb maxdoc).
+  Proof. unfold uleb. apply Q_rd1x_guard. intro r. p_go. Qed.
+
+  Lemma Q_small_uleb n maxv : Q n (small_uleb maxdoc maxv).
+  Proof. unfold small_uleb. apply Q_bind_l; [apply Q_uleb|]. intro u. p_go. Qed.
+
+  Lemma P_uleb n : P n (uleb maxdoc).
+  Proof. apply Q_P, Q_uleb. Qed.
+  Lemma P_small_uleb n maxv : P n (small_uleb maxdoc maxv).
+  Proof. apply Q_P, Q_small_uleb. Qed.
+  Hint Resolve P_uleb P_small_uleb : pdb.
+
+  Lemma P_read_identifier n : P n (read_identifier maxdoc).
+  Proof. unfold read_identifier. p_go. Qed.
+  Lemma P_read_uint n : P n (read_uint maxdoc).
+  Proof. unfold read_uint. p_go. Qed.
+  Lemma P_read_decimal n : P n (read_decimal maxdoc).
+  Proof. unfold read_decimal. p_go. Qed.
+  Lemma P_read_timezone n : P n (read_timezone maxdoc).
+  Proof. unfold read_timezone. p_go. Qed.
+  Hint Resolve P_read_identifier P_read_uint P_read_decimal P_read_timezone : pdb.
+  Lemma P_read_date n : P n (read_date maxdoc).
+  Proof. unfold read_date. p_go. Qed.
+  Lemma P_read_time n : P n (read_time maxdoc).
+  Proof. unfold read_time. p_go. Qed.
+  Lemma P_read_timestamp n : P n (read_timestamp maxdoc).
+  Proof. unfold read_timestamp. p_go. Qed.
+  Hint Resolve P_read_date P_read_time P_read_timestamp : pdb.
+
+  Lemma P_chunks f : forall width, P f (chunks maxdoc f width).
+  Proof.
+    induction f as [|f IH]; intro width; [intros s Hs; lia|].
+    cbn [chunks]. apply P_step; [apply Q_small_uleb|]. intro hdr.
+    p_go; try apply IH.
+  Qed.
+  Hint Resolve P_chunks : pdb.
+
+  Lemma P_decode_array f t : P f (decode_array maxdoc f t).
+  Proof. unfold decode_array. p_go. Qed.
+  Lemma P_decode_media f : P f (decode_media maxdoc f).
+  Proof. unfold decode_media. p_go. Qed.
+  Lemma P_decode_custom f : P f (decode_custom maxdoc f).
+  Proof. unfold decode_custom. p_go. Qed.
+  Lemma P_short_array n t sz cnt : P n (short_array maxdoc t sz cnt).
+  Proof. unfold short_array. p_go. Qed.
+  Hint Resolve P_decode_array P_decode_media P_decode_custom P_short_array : pdb.
+  Lemma P_decode_plane7f f : P f (decode_plane7f maxdoc f).
+  Proof. unfold decode_plane7f. p_go. Qed.
+  Lemma P_int_event n neg v : P n (int_event neg v).
+  Proof. unfold int_event. p_go. Qed.
+  Hint Resolve P_decode_plane7f P_int_event : pdb.
+  Lemma P_decode_token f t : P f (decode_token maxdoc f t).
+  Proof. unfold decode_token. p_go. Qed.
+
+  Lemma rtoe_spec s :
+    match read_type_or_eof maxdoc s with
+    | Ret None s' => (smu s' <= smu s)%nat
+    | Ret (Some _) s' => (smu s' < smu s)%nat
+    | Fail _ => True
+    | Stuck => False
+    end.
+  Proof.
+    unfold read_type_or_eof, bind. destruct (rd1_spec s) as (g & e & s' & -> & H1 & H2).
+    cbn [snd]. destruct e; [exact H1|]. specialize (H2 (or_intror eq_refl)).
+    unfold mark. destruct (maxdoc <? (s_cnt s' + 1) mod two64); [exact I|].
+    unfold get_b0, ret, smu in *. simpl. exact H2.
+  Qed.
+
+  Lemma P_main_loop f : P f (main_loop maxdoc f).
+  Proof.
+    induction f as [|f IH]; [intros s Hs; lia|].
+    intros s Hs. cbn [main_loop]. unfold bind at 1.
+    pose proof (rtoe_spec s) as H.
+    destruct (read_type_or_eof maxdoc s) as [[t|] s1|s1|]; auto.
+    unfold bind. pose proof (P_decode_token f t s1 ltac:(lia)) as T.
+    destruct (decode_token maxdoc f t s1) as [u s2|s2|]; auto.
+    specialize (IH s2 ltac:(lia)). destruct (main_loop maxdoc f s2); auto. lia.
+  Qed.
+
+  Lemma decode_doc_not_stuck s0 :
+    (smu s0 < src_fuel (s_src s0))%nat -> decode_doc maxdoc (src_fuel (s_src s0)) s0 <> Stuck.
+  Proof.
+    intros Hs E.
+    assert (H : P (src_fuel (s_src s0)) (decode_doc maxdoc (src_fuel (s_src s0)))).
+    { unfold decode_doc. p_go. apply P_main_loop. }
+    specialize (H s0 Hs). rewrite E in H. exact H.
+  Qed.
+
+  (* no script whatsoever (good or not, buffered or not) exhausts the model's fuel *)
+  Theorem decode_never_hangs s : snd (cbe_decode_src maxdoc s) <> SHang.
+  Proof.
+    unfold cbe_decode_src.
+    pose proof (decode_doc_not_stuck (mkst s 0 0 []) ltac:(unfold smu, mu, src_fuel; simpl; lia)) as H.
+    simpl in H. destruct (decode_doc maxdoc (src_fuel s) (mkst s 0 0 [])); simpl; congruence.
+  Qed.
+End NoHang.
+
+Lemma copy_never_hangs sc : eof_last sc = true -> copy_all (Direct sc) <> None.
+Proof. intro H. rewrite (copy_all_wf (Direct sc) H). discriminate. Qed.
+
+Lemma stream_never_hangs : forall maxdoc sc, snd (decode_stream maxdoc sc) <> SHang.
+Proof. intros maxdoc sc. apply decode_never_hangs. Qed.
